@@ -108,6 +108,7 @@ def work(ctx, tier):
         for e in common.pick_entries(rng, entries, 3):
             _one(ctx, sc, e, stats, sample=(k < 2 and ctx.shard == 0))
         ctx.inc("random_scenarios")
+    common.crossing_slice(ctx, tier, common.rng_for(ctx, "crossing"), lambda sc, e: _one(ctx, sc, e, stats), entries=entries)
     # whole calls racing in threads on one policy object: each call surfaces an object of ITS OWN last attempt
     tconc.thread_slice(ctx, tier, common.rng_for(ctx, "threads"), ["identity"], budget=True, breaker=True)
     common.flush_stats(ctx, stats)
